@@ -11,6 +11,8 @@ From SK Require Import Gen.KernelsR Proofs.RealLib Proofs.CostKernels.
 Import ListNotations.
 
 
+From Flocq Require Import Core Relative.
+From SK Require Import Proofs.FloatError.
 Theorem C01_l2_optim_is_residual_sum_of_squares : forall (xs : list R) (s e : nat), (s < e <= length xs)%nat -> l2_cost_optim_R (prefix xs) (prefix (sq xs)) s e = rss (slice s e xs).
 Proof. exact @l2_optim_is_rss. Qed.
 
@@ -67,3 +69,33 @@ Print Assumptions C01_batch_length.
 Print Assumptions C01_batch_row_independent.
 Print Assumptions C01_batch_concatenation.
 Print Assumptions C01_batch_order.
+
+(** ---- added: statements re-derived from the lemma files by tools/append_props.py ---- *)
+Theorem C01_float_sequential_sum_error : forall l : list R, Rabs (fsum53 l - sumR l) <= ((1 + u53) ^ length l - 1) * sumR (map Rabs l).
+Proof. exact @fsum53_error. Qed.
+
+Theorem C01_float_prefix_difference_error : forall (l : list R) (s e : nat), (s <= e)%nat -> INR e * u53 <= 1 / 100 -> Rabs (rnd53 (fprefix53 l e - fprefix53 l s) - sumR (slice s e l)) <= (204 / 100 * INR e + 204 / 100) * u53 * sumR (map Rabs (firstn e l)).
+Proof. exact @fdiff53_error. Qed.
+
+Theorem C01_float_l2_cost_error : forall (l : list R) (s e : nat), (s < e)%nat -> INR e * u53 <= 1 / 100 -> Rabs (l2_cost_float53 l s e - l2_cost_optim_R (prefix l) (prefix (sq l)) s e) <= (42 / 10 * INR e + 6) * u53 * (sumR (map (fun x : R => x * x) (firstn e l)) + sumR (map Rabs (firstn e l)) ^ 2 / INR (e - s)).
+Proof. exact @l2_cost_float53_error. Qed.
+
+Theorem C01_float_l2_cost_vs_residual_sum_of_squares : forall (l : list R) (s e : nat), (s < e <= length l)%nat -> INR e * u53 <= 1 / 100 -> Rabs (l2_cost_float53 l s e - rss (slice s e l)) <= (42 / 10 * INR e + 6) * u53 * l2_scale l s e.
+Proof. exact @l2_cost_float53_vs_rss. Qed.
+
+Theorem C01_float_l2_cost_within_test_tolerance : forall (l : list R) (s e : nat), (s < e)%nat -> INR e <= 2000000 -> Rabs (l2_cost_float53 l s e - l2_cost_optim_R (prefix l) (prefix (sq l)) s e) <= 1 / 1000000000 * l2_scale l s e.
+Proof. exact @l2_cost_float53_tolerance. Qed.
+
+Theorem C01_float_model_is_binary64_on_normal_range : forall x : R, bpow radix2 (-1022) <= Rabs x -> rnd_binary64 x = rnd53 x.
+Proof. exact @rnd53_is_binary64_normal. Qed.
+
+Theorem C01_float_l2_cost_operation_order : forall (l : list R) (s e : nat), l2_cost_float53 l s e = (let S1 := fprefix53 l in let S2 := fprefix53 (map (fun x : R => rnd53 (x * x)) l) in let a := rnd53 (S1 e - S1 s) in rnd53 (rnd53 (S2 e - S2 s) - rnd53 (rnd53 (a * a) / INR (e - s)))).
+Proof. exact @l2_cost_float53_unfold. Qed.
+
+Print Assumptions C01_float_sequential_sum_error.
+Print Assumptions C01_float_prefix_difference_error.
+Print Assumptions C01_float_l2_cost_error.
+Print Assumptions C01_float_l2_cost_vs_residual_sum_of_squares.
+Print Assumptions C01_float_l2_cost_within_test_tolerance.
+Print Assumptions C01_float_model_is_binary64_on_normal_range.
+Print Assumptions C01_float_l2_cost_operation_order.
